@@ -7,6 +7,5 @@ CONSTANTS
   DefectLateClose = TRUE
   DefectIgnoreDeadline = FALSE
   DefectDoubleNil = FALSE
-INVARIANTS TypeOK ShutdownWaits DeadlineBounds NothingAfterStop MisuseErrors NoAcceptAfterBegin
-PROPERTIES NoHandlerStartAfterNil AcceptOnlyWhileStarted
+INVARIANTS NoAcceptAfterBegin
 CHECK_DEADLOCK FALSE
